@@ -186,7 +186,7 @@ func (u *Unit) eval(e ast.Expr, env *Env) Value {
 			v := u.sliceGet(env, xv.Term, u.sortOf(xt.Elem()), idx.Term)
 			u.knownRefsOf(env, v)
 			if v.Sort == SSlice {
-				env.assume(u.validSliceT(v))
+				u.assumeGround(env, u.validSliceT(v))
 			}
 			return Value{v, xt.Elem()}
 		case *types.Map:
@@ -450,7 +450,7 @@ func (u *Unit) ptrLoad(env *Env, p Term, elem types.Type) Term {
 	h := u.heap(env, ptrHeapName(s), ArrS(SRef, s))
 	v := Select(h, p)
 	if s == SSlice {
-		env.assume(u.validSliceT(v))
+		u.assumeGround(env, u.validSliceT(v))
 	}
 	u.knownRefsOf(env, v)
 	return v
@@ -528,7 +528,7 @@ func (u *Unit) fieldPath(base Value, path []int, env *Env, at ast.Node) Value {
 			v := Select(h, cur.Term)
 			u.knownRefsOf(env, v)
 			if f.Sort == SSlice {
-				env.assume(u.validSliceT(v))
+				u.assumeGround(env, u.validSliceT(v))
 			}
 			cur = Value{v, f.Ty}
 			continue
@@ -649,6 +649,9 @@ func (u *Unit) mapGet(env *Env, m Term, mt *types.Map, k Term) (val Term, ok Ter
 	ok = And(notNil, Select(Select(dom, m), k))
 	val = Select(Select(vh, m), k)
 	u.knownRefsOf(env, val)
+	if val.Sort == SSlice {
+		u.assumeGround(env, u.validSliceT(val))
+	}
 	return
 }
 
